@@ -119,6 +119,8 @@ PROPS["C02"] = {
     "legs": [
         Leg("stream", "c02", "^TestStream$", checks=(3000, 120000), shards=(2, 16), tests=["stream"]),
         Leg("stream-race", "c02", "^TestStream$", race=True, checks=(600, 25000), shards=(2, 16), tests=["stream"]),
+        Leg("stream-yield-race", "c02", "^TestStream$", engine="sched", race=True, instrument=["rtcm/handler/handler.go", "rtcm/pushback/byte_channel.go"],
+            checks=(200, 8000), shards=(2, 16), tests=["stream"]),
     ],
 }
 
